@@ -72,3 +72,25 @@ contract("ghost:months_compose", use_at_calls=False, requires=_NORM_P,
 contract("ghost:leap_day_plus_year", use_at_calls=False, requires=_NORM_P,
          cases=[Case("cal-hms", lambda E, st: {
              "p": mk_timepoint(E, st, "p", "cal", "hms")})]).modes = ["gregorian", "366day"]
+
+
+def dur_cases(names, forms=("unit", "week")):
+    import itertools
+    out = []
+    for combo in itertools.product(forms, repeat=len(names)):
+        def build(E, st, combo=combo):
+            return {n: mk_duration(E, st, n, f) for n, f in zip(names, combo)}
+        out.append(Case("-".join(combo), build))
+    return out
+
+
+for nm, names in (("dur_add_commutes", ("a", "b")), ("dur_add_associative", ("a", "b", "c")),
+                  ("dur_identity_and_inverse", ("a",)), ("dur_sub_is_add_negation", ("a", "b")),
+                  ("dur_exact_equal_by_length", ("a", "b")),
+                  ("dur_equal_implies_equal_hash", ("a", "b")),
+                  ("dur_order_consistent", ("a", "b")), ("dur_order_transitive", ("a", "b", "c"))):
+    contract("ghost:" + nm, use_at_calls=False, cases=dur_cases(names))
+contract("ghost:dur_mul_is_repeated_addition", use_at_calls=False,
+         cases=[Case(f, lambda E, st, f=f: {"a": mk_duration(E, st, "a", f),
+                                            "n": E.sym_int("n")}) for f in ("unit", "week")])
+contract("ghost:dur_unit_ratios", use_at_calls=False, cases=[Case("concrete", lambda E, st: {})])
